@@ -296,14 +296,25 @@ def _as_form(seq, form):
     return (x for x in seq)
 
 
-def pycoin_sign(built, tx, mech, key_idxs, hash_type=None, idx_set=None, scripts=None, uncompressed=(), forms=0):
+def crowd_exponents(crowd):
+    """|crowd| further secret exponents that no input needs (a wallet full of other keys)"""
+    return [7 * 10**9 + 3 * i for i in range(abs(crowd))]
+
+
+def _crowded(needed, extra, crowd):
+    # crowd > 0: the unrelated keys are handed over after the needed ones; crowd < 0: before them
+    return needed + extra if crowd >= 0 else extra + needed
+
+
+def pycoin_sign(built, tx, mech, key_idxs, hash_type=None, idx_set=None, scripts=None, uncompressed=(), forms=0, crowd=0):
     """call pycoin's signer through one of the three key-supply mechanisms.
 
     key_idxs: ring indices whose secrets are supplied;  scripts: p2sh / p2wsh preimages supplied;
     uncompressed: ring indices that some input uses in uncompressed form (keychain mechanism only: a keychain indexes
     hierarchical keys by their compressed hash160, so those keys are also added as plain secrets);
     forms: selects the container form (list / tuple / iterator / generator; set / frozenset / list / tuple for the index
-    set) in which the iterable arguments are handed over - the documented parameter types are iterables."""
+    set) in which the iterable arguments are handed over - the documented parameter types are iterables;
+    crowd: that many unrelated private keys are supplied along with the needed ones (after them; before them if negative)."""
     f_scripts, f_keys, f_idx = forms % 4, (forms // 4) % 4, (forms // 16) % 4
     net = built.net
     scripts = built.all_scripts() if scripts is None else scripts
@@ -313,15 +324,18 @@ def pycoin_sign(built, tx, mech, key_idxs, hash_type=None, idx_set=None, scripts
     if idx_set is not None:
         kwargs["tx_in_idx_set"] = (set, frozenset, list, tuple)[f_idx](idx_set)
     if mech == "lookup":
-        hl = net.tx.solve.build_hash160_lookup(_as_form([RING_D[k] for k in key_idxs], f_keys))
+        hl = net.tx.solve.build_hash160_lookup(_as_form(_crowded([RING_D[k] for k in key_idxs], crowd_exponents(crowd), crowd), f_keys))
         tx.sign(hl, p2sh_lookup=net.tx.solve.build_p2sh_lookup(_as_form(scripts, f_scripts)), **kwargs)
     elif mech == "wif":
         unc = set(uncompressed)
         wifs = [net.keys.private(secret_exponent=RING_D[k], is_compressed=k not in unc).wif() for k in key_idxs]
+        wifs = _crowded(wifs, [net.keys.private(secret_exponent=e).wif() for e in crowd_exponents(crowd)], crowd)
         net.tx_utils.sign_tx(tx, _as_form(wifs, f_keys % 2), p2sh_lookup=net.tx.solve.build_p2sh_lookup(_as_form(scripts, f_scripts)), **kwargs)
     elif mech == "keychain":
         kc = net.keychain()
         masters = [net.keys.bip32_seed(s) for s in SEEDS]
+        if crowd < 0:
+            kc.add_secrets([net.keys.private(secret_exponent=e) for e in crowd_exponents(crowd)])
         for mi, master in enumerate(masters):
             paths = [ring_path_text(k) for k in key_idxs if ring_path(k)[0] == mi]
             # hardened steps cannot be derived from the public node; the others are registered the way keychain_test does
@@ -333,6 +347,8 @@ def pycoin_sign(built, tx, mech, key_idxs, hash_type=None, idx_set=None, scripts
             kc.add_secrets([net.keys.private(secret_exponent=mk.secret_exponent()) for mk in masters])
         kc.add_secrets(masters)
         kc.add_secrets([net.keys.private(secret_exponent=RING_D[k]) for k in key_idxs if k in set(uncompressed)])
+        if crowd > 0:
+            kc.add_secrets([net.keys.private(secret_exponent=e) for e in crowd_exponents(crowd)])
         kc.add_p2s_scripts(_as_form(scripts, f_scripts))
         tx.sign(kc, p2sh_lookup=kc, **kwargs)
     else:
